@@ -99,7 +99,7 @@ def gen_case(rng, mode):
             gs = [g for g in names if kind[g] == 'group' and rank[g] < rank[n] and group_of.get(n) != g]
             if gs:
                 td.append(rng.choice(gs) + ':*')
-        ck = rng.choices(['none', 'true', 'act', 'act_dry', 'two', 'cmd'], weights=[12, 38, 25, 10, 14, 1])[0]
+        ck = rng.choices(['none', 'true', 'act', 'act_dry', 'two', 'cmd', 'dry_plain', 'dry_plain_dry'], weights=[12, 34, 22, 8, 12, 1, 7, 4])[0]
         tasks[n] = dict(name=n, kind=kind[n], group=group_of.get(n), task_dep=td, setup=su, clean=ck,
                         targets=[], file_dep=[])
     for p in universe:
@@ -206,14 +206,19 @@ def clean_value(t, log):
         return [dry(0)]
     if ck == 'two':
         return [plain(0, False), dry(1)]          # the first one fails: the loop must go on
+    if ck == 'dry_plain':
+        return [dry(0), plain(1)]                  # a dryrun-aware action does not make the later ones run on dry-run
+    if ck == 'dry_plain_dry':
+        return [dry(0), plain(1), dry(2)]
     if ck == 'cmd':
         return ['echo c14exec %s 0' % n]            # a cmd-action: its output goes to outstream
     raise ValueError(ck)
 
 
 CLEAN_MODEL = {'none': 'Some []', 'true': 'None', 'act': 'Some [false]', 'act_dry': 'Some [true]',
-               'two': 'Some [false; true]', 'cmd': 'Some [false]'}
-N_ANNOUNCE = {'none': 0, 'true': 0, 'act': 1, 'act_dry': 1, 'two': 2, 'cmd': 1}
+               'two': 'Some [false; true]', 'cmd': 'Some [false]', 'dry_plain': 'Some [true; false]',
+               'dry_plain_dry': 'Some [true; false; true]'}
+N_ANNOUNCE = {'none': 0, 'true': 0, 'act': 1, 'act_dry': 1, 'two': 2, 'cmd': 1, 'dry_plain': 2, 'dry_plain_dry': 3}
 
 
 def task_kwargs(t, root, log):
@@ -601,7 +606,7 @@ def oracle(spec, ids, rows, code, log, fs_after, db_after, root):
         ex += [int(m.group(2)) for m in (RX_CMD.match(e[1]) for e in log if e[0] == 'line') if m and m.group(1) == idname[t]]
         wantex = list(range(N_ANNOUNCE[sp['clean']]))
         if fl['dryrun']:
-            wantex = {'act_dry': [0], 'two': [1]}.get(sp['clean'], [])
+            wantex = {'act_dry': [0], 'two': [1], 'dry_plain': [0], 'dry_plain_dry': [0, 2]}.get(sp['clean'], [])
         if ex != wantex:
             bad.append(('actions', 'clean actions of %s executed %s, expected %s' % (idname[t], ex, wantex)))
     if any(e[0] == 'exec' and ids[e[1]] not in set(cleaned) for e in log):
